@@ -42,11 +42,14 @@ Definition side_eqb (a b : side) : bool :=
 Record cfg := mkCfg
   { fix_close : bool;   (* Proxy: defer sc.Close() right after the dial *)
     fix_done : bool;    (* a direction that ends closes `done`; relayFrames selects on it *)
-    fix_abort : bool }. (* emitEligibleFrames: select { output <- f ; <-done: return } *)
+    fix_abort : bool;   (* emitEligibleFrames: select { output <- f ; <-done: return } *)
+    werr_buffered : bool }. (* relayFrames: writerErr := make(chan error, 1) (as in the original);
+                               false = unbuffered: the writer must hand its error to the reader's select *)
 
-Definition cfg_orig : cfg := mkCfg false false false.
-Definition cfg_fixed : cfg := mkCfg true true true.
-Definition cfg_src : cfg := mkCfg src_closes_upstream src_done_signal src_emit_abortable.
+Definition cfg_orig : cfg := mkCfg false false false true.
+Definition cfg_fixed : cfg := mkCfg true true true true.
+Definition cfg_src : cfg :=
+  mkCfg src_closes_upstream src_done_signal src_emit_abortable (negb (Nat.eqb writer_err_capacity 0)).
 
 Definition cap : nat := output_channel_size.
 
@@ -73,9 +76,15 @@ Inductive rpc :=
 | RExited                                  (* relayFrames returned; closure's defers not yet run *)
 | RRet.                                    (* endSession() (if any) and wg.Done() done *)
 
-Inductive wpc := WRun | WGone.
+Inductive wpc :=
+| WRun                (* in its select *)
+| WBlocked            (* inside f.send: Write toward a peer that has stopped reading (holds destMu) *)
+| WErrSend            (* blocked in `writerErr <- err` (unbuffered writerErr only) *)
+| WGone.
 Inductive mpc := MPreface | MWait | MReturned.
-Inductive conn := Open | Half | Gone.  (* remote endpoint: Half = sent FIN, still reads *)
+(* remote endpoint: Half = has sent FIN (the proxy reads EOF); Stalled/HalfStalled = in addition it
+   has stopped reading, so a Write toward it blocks until it goes away or the write is failed *)
+Inductive conn := Open | Stalled | Half | HalfStalled | Gone.
 
 Record dstate := mkD
   { rd : rpc; wr : wpc;
@@ -116,7 +125,8 @@ Definition with_rd (x : dstate) (r : rpc) : dstate :=
 Definition with_rd_rf (x : dstate) (r : rpc) (f : rfst) : dstate :=
   mkD r (wr x) (wfailed x) (werr x) (chan x) (queued x) f (inflight x).
 
-Definition conn_open (c : conn) : bool := match c with Open => true | _ => false end.
+Definition conn_open (c : conn) : bool := match c with Open | Stalled => true | _ => false end.
+Definition is_stalled (c : conn) : bool := match c with Stalled | HalfStalled => true | _ => false end.
 
 Definition remote (s : state) (x : side) : conn := match x with Cl => cli s | Sv => srv s end.
 Definition local_closed (s : state) (x : side) : bool := match x with Cl => cc_closed s | Sv => sc_closed s end.
@@ -125,6 +135,10 @@ Definition wbroken (s : state) (x : side) : bool := match x with Cl => wbroken_c
 (* a write toward side x may fail *)
 Definition may_fail (s : state) (x : side) : bool :=
   negb (conn_open (remote s x)) || wbroken s x || local_closed s x.
+
+(* a Write toward side x blocks *)
+Definition blocks (s : state) (x : side) : bool :=
+  is_stalled (remote s x) && negb (wbroken s x) && negb (local_closed s x).
 
 Definition is_emit_on (r : rpc) (t : side) : bool :=
   match r with REmit t' _ _ => side_eqb t t' | _ => false end.
@@ -136,7 +150,8 @@ Inductive label :=
 | ESend (x : side) (f : kind)   (* endpoint x sends a frame ([KBad]: a protocol error) *)
 | EClose (x : side)             (* endpoint x goes away (close or reset) *)
 | EHalf (x : side)              (* endpoint x half-closes: the proxy reads EOF, writes still accepted *)
-| EWriteFail (x : side)         (* writes toward x start failing *)
+| EWriteFail (x : side)         (* writes toward x start failing (also one that is blocked) *)
+| EStall (x : side)             (* endpoint x stops reading *)
 | EClosing                      (* proxy shutdown *)
 (* internal *)
 | IPreface (ok : bool)
@@ -145,12 +160,15 @@ Inductive label :=
 | ISelErr (d : side) | ISelClosing (d : side) | ISelDone (d : side)
 | ILock (d : side) | ISend (d : side) | IAbort (d : side) | IUnlock (d : side) (wf : bool)
 | IWrite (d : side) (wf : bool)
+| IWriteBlock (d : side)              (* the writer takes a frame and blocks in Write *)
+| IWriteUnblock (d : side) (wf : bool) (* the blocked Write completes / fails *)
+| IErrHandoff (d : side)              (* unbuffered writerErr: the reader's select takes the writer's error *)
 | IHandshake (d : side) | IStop (d : side)
 | IJoin | ICallerClose.
 
 Definition internal (l : label) : bool :=
   match l with
-  | ESend _ _ | EClose _ | EHalf _ | EWriteFail _ | EClosing => false
+  | ESend _ _ | EClose _ | EHalf _ | EWriteFail _ | EStall _ | EClosing => false
   | _ => true
   end.
 
@@ -173,7 +191,21 @@ Definition step (c : cfg) (s : state) (l : label) : option state :=
         Some (if is_bad f then set_trig s1 else s1)
       else None
   | EClose x => Some (set_remote s x Gone)
-  | EHalf x => if conn_open (remote s x) then Some (set_remote s x Half) else None
+  | EHalf x =>
+      match remote s x with
+      | Open => Some (set_remote s x Half)
+      | Stalled => Some (set_remote s x HalfStalled)
+      | _ => None
+      end
+  | EStall x =>
+      let keep_trig (s1 : state) :=
+        mkS (dc s1) (ds s1) (main s1) (cli s1) (srv s1) (wbroken_c s1) (wbroken_s s1) (sc_closed s1)
+            (cc_closed s1) (closing s1) (done s1) (trig s) in
+      match remote s x with
+      | Open => Some (keep_trig (set_remote s x Stalled))
+      | Half => Some (keep_trig (set_remote s x HalfStalled))
+      | _ => None
+      end
   | EWriteFail x =>
       Some (match x with
             | Cl => mkS (dc s) (ds s) (main s) (cli s) (srv s) true (wbroken_s s) (sc_closed s) (cc_closed s) (closing s) (done s) (trig s)
@@ -291,11 +323,46 @@ Definition step (c : cfg) (s : state) (l : label) : option state :=
           if wfailed x then
             (if wf then None
              else Some (setd s d (mkD (rd x) (wr x) true (werr x) n (queued x) (rf x) (inflight x))))
+          else if blocks s (other d) then None
           else if wf then
             (if may_fail s (other d)
-             then Some (set_trig (setd s d (mkD (rd x) (wr x) true true n (queued x) (rf x) (inflight x))))
+             then Some (set_trig (setd s d
+                    (if werr_buffered c
+                     then mkD (rd x) WRun true true n (queued x) (rf x) (inflight x)
+                     else mkD (rd x) WErrSend true (werr x) n (queued x) (rf x) (inflight x))))
              else None)
           else Some (setd s d (mkD (rd x) (wr x) false (werr x) n (queued x) (rf x) (inflight x)))
+      | _, _ => None
+      end
+  | IWriteBlock d =>
+      let x := getd s d in
+      match wr x, chan x with
+      | WRun, S n =>
+          if negb (wfailed x) && blocks s (other d)
+          then Some (setd s d (mkD (rd x) WBlocked false (werr x) n (queued x) (rf x) (inflight x)))
+          else None
+      | _, _ => None
+      end
+  | IWriteUnblock d wf =>
+      let x := getd s d in
+      match wr x with
+      | WBlocked =>
+          if blocks s (other d) then None
+          else if wf then
+            (if may_fail s (other d)
+             then Some (set_trig (setd s d
+                    (if werr_buffered c
+                     then mkD (rd x) WRun true true (chan x) (queued x) (rf x) (inflight x)
+                     else mkD (rd x) WErrSend true (werr x) (chan x) (queued x) (rf x) (inflight x))))
+             else None)
+          else Some (setd s d (mkD (rd x) WRun (wfailed x) (werr x) (chan x) (queued x) (rf x) (inflight x)))
+      | _ => None
+      end
+  | IErrHandoff d =>
+      let x := getd s d in
+      match rd x, wr x with
+      | RSel, WErrSend =>
+          Some (setd s d (mkD RDoneSend WRun (wfailed x) (werr x) (chan x) (queued x) (rf x) (inflight x)))
       | _, _ => None
       end
   | IHandshake d =>
@@ -346,7 +413,8 @@ Definition all_internal : list label :=
   [IPreface true; IPreface false; IJoin; ICallerClose]
   ++ flat_map (fun d => [IRead d; IReadEnd d; ITake d false; ITake d true; ISelErr d; ISelClosing d; ISelDone d;
                          ILock d; ISend d; IAbort d; IUnlock d false; IUnlock d true;
-                         IWrite d false; IWrite d true; IHandshake d; IStop d]) [Cl; Sv].
+                         IWrite d false; IWrite d true; IWriteBlock d; IWriteUnblock d false; IWriteUnblock d true;
+                         IErrHandoff d; IHandshake d; IStop d]) [Cl; Sv].
 
 Definition enabled (c : cfg) (s : state) (l : label) : bool :=
   match step c s l with Some _ => true | None => false end.
@@ -357,7 +425,7 @@ Definition quiescentb (c : cfg) (s : state) : bool :=
 (* ---------------------------------------------------------------- observation *)
 
 Definition reader_alive (r : rpc) : bool := match r with RNot | RRet => false | _ => true end.
-Definition writer_alive (w : wpc) : bool := match w with WRun => true | WGone => false end.
+Definition writer_alive (w : wpc) : bool := match w with WGone => false | _ => true end.
 Definition rf_alive (f : rfst) : bool := match f with RFBlocked => true | _ => false end.
 Definition main_alive (m : mpc) : bool := match m with MReturned => false | _ => true end.
 
@@ -403,7 +471,8 @@ Definition census (s : state) : list nat :=
    the first enabled label of [sched_order]; a write fails as soon as it may. *)
 
 Definition sched_order : list label :=
-  flat_map (fun d => [IWrite d true; IWrite d false; ITake d true; ITake d false; IUnlock d true; IUnlock d false;
+  flat_map (fun d => [IWrite d true; IWrite d false; IWriteBlock d; IWriteUnblock d true; IWriteUnblock d false;
+                      IErrHandoff d; ITake d true; ITake d false; IUnlock d true; IUnlock d false;
                       ISelErr d; ISelDone d; ISelClosing d; IAbort d; ISend d; ILock d;
                       IHandshake d; IStop d; IRead d; IReadEnd d]) [Cl; Sv]
   ++ [IPreface true; IJoin; ICallerClose].
@@ -425,7 +494,7 @@ Fixpoint settle (c : cfg) (fuel : nat) (s : state) : state * bool :=
 
 (* the internal-step budget any state needs (see Proofs: measure) *)
 Definition kcost (f : kind) : nat :=
-  match f with KOwn _ k => 3 * k + 10 | KWin _ k => 3 * k + 10 | _ => 10 end.
+  match f with KOwn _ k => 7 * k + 10 | KWin _ k => 7 * k + 10 | _ => 10 end.
 
 Definition rf_rank (f : rfst) : nat :=
   match f with
@@ -438,13 +507,14 @@ Definition rf_rank (f : rfst) : nat :=
 Definition rd_rank (r : rpc) : nat :=
   match r with
   | RNot => 0 | RRet => 0 | RExited => 1 | RDoneSend => 2 | RSel => 3
-  | REmit _ _ k => 3 * k + 6
-  | RLock _ _ k => 3 * k + 7
+  | REmit _ _ k => 7 * k + 6
+  | RLock _ _ k => 7 * k + 7
   end.
 
 Definition dir_measure (x : dstate) : nat :=
   fold_right (fun f n => kcost f + n) 0 (inflight x)
-  + rf_rank (rf x) + rd_rank (rd x) + 2 * chan x + b2n (werr x) + b2n (writer_alive (wr x)).
+  + rf_rank (rf x) + rd_rank (rd x) + 6 * chan x + b2n (werr x)
+  + match wr x with WGone => 0 | WRun => 1 | WErrSend => 3 | WBlocked => 5 end.
 
 Definition measure (s : state) : nat :=
   dir_measure (dc s) + dir_measure (ds s)
